@@ -12,8 +12,12 @@ def main():
     errs, _ = build.run_extract()
     if errs:
         print("extract problems (checks will report them):", errs)
-    ok, s, log = build.lake_build(["Strophe", "drv"])
-    print("lake build Strophe drv: %s in %.1fs" % ("ok" if ok else "FAILED", s))
+    # only what the claimed checks use: work in progress on unclaimed properties must not break setup
+    import json
+    man = json.load(open(os.path.join(build.VERIF, "MANIFEST.json")))
+    targets = ["Strophe.Props.%s" % c["property_id"] for c in man.get("checks", [])] + ["drv"]
+    ok, s, log = build.lake_build(targets)
+    print("lake build %s: %s in %.1fs" % (" ".join(targets), "ok" if ok else "FAILED", s))
     if not ok:
         print(log[-3000:])
     engs = sorted(f[4:-2] for f in os.listdir(os.path.join(build.VERIF, "harness"))
